@@ -116,28 +116,59 @@ func c13Apply(st string, op StoreOp) (string, string) {
 	case "getall":
 		return st, st
 	case "getint":
+		if m[op.Key] >= 1000 {
+			return "0", st
+		}
 		return strconv.Itoa(m[op.Key]), st
 	case "getintor":
 		v, okk := m[op.Key]
-		if !okk {
+		if !okk || v >= 1000 {
 			v = -99
 		}
 		return strconv.Itoa(v), st
 	case "getfloat":
+		if m[op.Key] >= 1000 {
+			return "0", st
+		}
 		return fmt.Sprint(float64(m[op.Key])), st
 	case "getstring":
 		return "", st // values are ints: GetString yields ""
 	case "getsliceor":
+		if v, okk := m[op.Key]; okk && v >= 1000 {
+			return fmt.Sprintf("[%d]", v-1000), st
+		}
 		return "d", st
 	}
 	panic("unknown op " + op.Op)
+}
+
+// c13Val: model values >= 1000 stand for the typed slice []int{v-1000} (so that reads which
+// secretly write a converted value back are visible), everything else is the int itself.
+func c13Val(v int) any {
+	if v >= 1000 {
+		return []int{v - 1000}
+	}
+	return v
+}
+
+// c13Decode maps a stored value back to the model's integer; -1 = not what was stored.
+func c13Decode(v any) int {
+	switch x := v.(type) {
+	case int:
+		return x
+	case []int:
+		if len(x) == 1 {
+			return 1000 + x[0]
+		}
+	}
+	return -1
 }
 
 // c13Exec runs one op against the real store and renders its output like the model does.
 func c13Exec(s *flyt.SharedStore, op StoreOp) string {
 	switch op.Op {
 	case "set":
-		s.Set(op.Key, op.Val)
+		s.Set(op.Key, c13Val(op.Val))
 	case "delete":
 		s.Delete(op.Key)
 	case "clear":
@@ -149,12 +180,15 @@ func c13Exec(s *flyt.SharedStore, op StoreOp) string {
 		}
 		in := make(map[string]any, len(op.Keys))
 		for j, k := range op.Keys {
-			in[k] = op.Vals[j%len(op.Vals)]
+			in[k] = c13Val(op.Vals[j%len(op.Vals)])
 		}
 		s.Merge(in)
 	case "get":
 		v, okk := s.Get(op.Key)
-		return fmt.Sprintf("%v,%v", v, okk)
+		if !okk {
+			return "<nil>,false"
+		}
+		return fmt.Sprintf("%d,%v", c13Decode(v), okk)
 	case "has":
 		return strconv.FormatBool(s.Has(op.Key))
 	case "len":
@@ -167,7 +201,7 @@ func c13Exec(s *flyt.SharedStore, op StoreOp) string {
 		all := s.GetAll()
 		m := c13State{}
 		for k, v := range all {
-			m[k], _ = v.(int)
+			m[k] = c13Decode(v)
 		}
 		return c13Canon(m)
 	case "getint":
@@ -179,8 +213,14 @@ func c13Exec(s *flyt.SharedStore, op StoreOp) string {
 	case "getstring":
 		return s.GetString(op.Key)
 	case "getsliceor":
-		if v := s.GetSliceOr(op.Key, []any{"d"}); len(v) == 1 && v[0] == "d" {
+		v := s.GetSliceOr(op.Key, []any{"d"})
+		if len(v) == 1 && v[0] == "d" {
 			return "d"
+		}
+		if len(v) == 1 {
+			if x, isInt := v[0].(int); isInt {
+				return fmt.Sprintf("[%d]", x)
+			}
 		}
 		return "?"
 	}
@@ -304,7 +344,7 @@ func renderHist(h []HistOp) string {
 
 func genC13(rt *rapid.T) C13Case {
 	nt := rapid.IntRange(2, 6).Draw(rt, "threads")
-	opsAll := []string{"set", "set", "get", "has", "delete", "len", "keys", "getall", "merge", "merge", "clear", "getint", "getintor", "getfloat", "getstring", "getsliceor"}
+	opsAll := []string{"set", "set", "get", "has", "delete", "len", "keys", "getall", "merge", "merge", "clear", "getint", "getintor", "getfloat", "getstring", "getsliceor", "getsliceor"}
 	var p C13Program
 	for ti := 0; ti < nt; ti++ {
 		no := rapid.IntRange(1, 8).Draw(rt, "nops")
@@ -313,6 +353,9 @@ func genC13(rt *rapid.T) C13Case {
 			op := StoreOp{Op: opsAll[uniform(rt, len(opsAll), "op")]}
 			op.Key = c13Keys[uniform(rt, len(c13Keys), "key")]
 			op.Val = 1 + uniform(rt, 9, "val")
+			if uniform(rt, 4, "slice") == 0 {
+				op.Val += 1000 // a typed-slice value
+			}
 			if op.Op == "merge" {
 				if uniform(rt, 8, "nil") == 0 {
 					op.Nil = true
